@@ -104,6 +104,9 @@ type Device struct {
 	// PanicOnFail: the injected failure is a crash (restart model) instead of an error
 	PanicOnFail bool
 	failFired   bool
+	// EnforceChoices: the device behaves like a YANG server - writing a node of one case removes the nodes of the
+	// other cases of the choice (off by default: C08 observes what data-server itself deletes)
+	EnforceChoices bool
 	// OnSet is invoked (under no lock) with the source before the device
 	// applies the change; used by C09/C10 to render the other encodings.
 	OnSet func(ctx context.Context, src target.TargetSource, rec *SetRecord)
@@ -210,6 +213,13 @@ func (d *Device) Set(ctx context.Context, source target.TargetSource) (*sdcpb.Se
 		return nil, ErrDeviceInjected
 	}
 	ApplyRecord(d.Config, rec)
+	if d.EnforceChoices {
+		var written []IPath
+		for _, u := range rec.Updates {
+			written = append(written, u.Path)
+		}
+		EnforceChoices(d.Config, written)
+	}
 	d.Log = append(d.Log, rec)
 	return &sdcpb.SetDataResponse{Timestamp: time.Now().UnixNano()}, nil
 }
